@@ -290,3 +290,64 @@ def show(t, depth=0):
 def _short(name):
     import re
     return re.sub(r"(?:[a-z_0-9]+::)+(?=[A-Za-z_<{])", "", name)
+
+
+# ---------------------------------------------------------------- term patterns
+
+def match(t, pat):
+    """Structural match of a (transparent-stripped) term against a pattern.
+
+    pattern := "*"                                  anything
+             | ("param", i) | ("param", i, projs)   parameter (exact projection path)
+             | ("const", v)
+             | ("call", name_suffix, [patterns])    call whose callee name ends with suffix
+             | ("agg", name_suffix, [patterns])
+             | ("try", pattern, projs)              `(pattern)?` followed by the projections
+             | ("proj", pattern, projs)
+             | ("any", [patterns])                  one of
+    """
+    if pat == "*":
+        return True
+    if not isinstance(t, tuple) or not t:
+        return False
+    k = pat[0]
+    if k == "any":
+        return any(match(t, p) for p in pat[1])
+    if k == "param":
+        want = tuple(pat[2]) if len(pat) > 2 else ()
+        return t[0] == "param" and t[1] == pat[1] and tuple(t[2]) == want
+    if k == "const":
+        return t[0] == "const" and str(t[1]) == str(pat[1])
+    if k == "call":
+        if t[0] != "call" or not t[1].endswith(pat[1]):
+            return False
+        if pat[2] is None:
+            return True
+        return len(t[2]) == len(pat[2]) and all(match(a, p) for a, p in zip(t[2], pat[2]))
+    if k == "agg":
+        if t[0] != "agg" or not str(t[1]).endswith(pat[1]):
+            return False
+        if pat[2] is None:
+            return True
+        return len(t[2]) == len(pat[2]) and all(match(a, p) for a, p in zip(t[2], pat[2]))
+    if k == "try":
+        projs = ("as Continue", ".0") + tuple(pat[2])
+        if t[0] != "proj" or tuple(t[2]) != projs:
+            return False
+        inner = t[1]
+        if inner[0] != "call" or not inner[1].endswith("Try>::branch"):
+            return False
+        return match(strip_transparent(inner[2][0]), pat[1])
+    if k == "proj":
+        return t[0] == "proj" and tuple(t[2]) == tuple(pat[2]) and match(t[1], pat[1])
+    return False
+
+
+def alternatives(t):
+    """Flatten phi terms into the list of alternatives."""
+    if isinstance(t, tuple) and t and t[0] == "phi":
+        out = []
+        for x in t[1]:
+            out.extend(alternatives(x))
+        return out
+    return [t]
